@@ -24,6 +24,7 @@ from typing import Any
 from sim import corpus, histsim, kit, project, runner
 
 PROP = "C07"
+FAMILY = {"model": 2000}  # finite scenario family (members are independent of VERIF_SEED); corpus family = cases x 2
 SEQ_FLAGS = ["--native-parser"]
 
 
@@ -162,7 +163,7 @@ POLICIES = [
 
 
 def gen(k: int, tier: str) -> dict[str, Any]:
-    rng = kit.rng_for(PROP, "scn", k)
+    rng = kit.family_rng(PROP, "scn", k)
     cfgs = [c for c in histsim.STORE_CONFIGS if c["format"] == "ff"] + [histsim.STORE_CONFIGS[3]]
     cfg = cfgs[k % len(cfgs)]
     base = histsim.gen_history_scenario(rng, cfg=cfg, max_steps=2, max_mods=9, clock_mode="plain")
@@ -223,8 +224,8 @@ def par_cases() -> list[dict[str, Any]]:
 
 def gen_corpus(k: int, tier: str) -> dict[str, Any]:
     cases = par_cases()
-    rng = kit.rng_for(PROP, "corpus", k)
-    c = cases[k % len(cases)] if tier == "thorough" else rng.choice(cases)
+    rng = kit.family_rng(PROP, "corpus", k)
+    c = cases[k % len(cases)]
     trees = corpus.trees_of(c)
     steps = [{"edits": corpus.delta(trees[i], trees[i + 1]), "gap_s": 2.0, "run": False} for i in range(len(trees) - 1)]
     cfg = dict(rng.choice([histsim.STORE_CONFIGS[0], histsim.STORE_CONFIGS[2], histsim.STORE_CONFIGS[1]]))
@@ -257,9 +258,9 @@ def task(item: tuple[int, str]) -> dict[str, Any]:
         out["probes"]["schedules_with_2plus_active_workers"] = 1
     if "case" in scn:
         out["faults"]["source_corpus"] = 1
-    if k < 2:
+    if k % 40 == 0 and "project" in scn:
         out["sample"] = {"config": scn["config"], "mode": scn["mode"], "par": scn["par"], "modules": sorted(scn["project"]["mods"]), "roots": scn["project"]["roots"], "decisions": p.get("n_decisions")}
-    elif k in (500000, 500001):
+    elif k >= 500000 and k % 100 == 0:
         out["sample"] = {"case": scn["case"], "mode": scn["mode"], "par": scn["par"], "decisions": p.get("n_decisions")}
     if info.get("par_error"):
         raise kit.HarnessError("scheduler summary failed: " + info["par_error"])
@@ -364,15 +365,16 @@ def run(tier: str) -> int:
         "replies fit in the socket buffer (a worker never blocks inside send)",
         "thread pools inside a process (parse, broadcast, connect) are outcome-deterministic; verified by the determinism self-test on every run",
     ]
-    n = 90 if tier == "quick" else 3000
-    n_det = 6 if tier == "quick" else 60
+    n = 90 if tier == "quick" else FAMILY["model"]
+    n_det = 6 if tier == "quick" else 40
     known = kit.load_known_findings(PROP) + [e for e in kit.load_known_findings("C02") if e["match"]["kind"] in SOFT]
-    det, _ = kit.run_pool(det_task, [(k, tier) for k in range(1000, 1000 + n_det)])
+    det, _ = kit.run_pool(det_task, [(k, tier) for k in kit.sample_indices(PROP, "det", FAMILY["model"], n_det)])
     bad = [d for d in det if not d["same"]]
     if bad:
         raise kit.HarnessError(f"determinism self-test failed: {bad[:3]}")
     n_corpus = 60 if tier == "quick" else len(par_cases()) * 2
-    results, skipped = kit.run_pool(task, [(k, tier) for k in range(n)] + [(500000 + k, tier) for k in range(n_corpus)], budget_s=900 if tier == "quick" else 3 * 3600)
+    items = [(k, tier) for k in kit.sample_indices(PROP, "model", FAMILY["model"], n)] + [(500000 + k, tier) for k in kit.sample_indices(PROP, "corpus", len(par_cases()) * 2, n_corpus)]
+    results, skipped = kit.run_pool(task, items, budget_s=900 if tier == "quick" else 3 * 3600)
     results.sort(key=lambda r: r["k"])
     by_class: dict[str, list[dict[str, Any]]] = {}
     assignments = set()
